@@ -204,7 +204,9 @@ class C14(Check):
         if kind != mk:
             if kind == 'CRASH' and mk != 'CRASH':
                 return 'violation', dict(det, expected='parse() returns or raises RTAMTException', observed=st)
-            return 'violation', dict(det, expected={'source': 'ParserDecl.file_outcome', 'outcome': mk}, observed=st if kind != 'OK' else 'accepted')
+            # rtamt accepts what the model rejects: an accepted text that is not derivable; rtamt rejects what the model accepts: allowed by the
+            # property (it constrains accepted texts only), but the model no longer describes the code
+            return ('violation' if kind == 'OK' else 'model-differs'), dict(det, expected={'source': 'ParserDecl.file_outcome', 'outcome': mk}, observed=st if kind != 'OK' else 'accepted')
         if kind == 'CRASH':
             return 'ok', None        # an import / a constructor that escapes the except clauses, as the oracle says (not benign: see C14_file_clean)
         if kind == 'OK':
@@ -219,9 +221,10 @@ class C14(Check):
             mv['io'] = [x for x in mv['io']]
             for k in ('name', 'mods', 'vars', 'types', 'consts', 'topics', 'free', 'out', 'asts'):
                 if got[k] != mv[k]:
-                    return 'violation', dict(det, table=k, expected={'source': 'ParserDecl.elab_file', k: mv[k]}, observed={k: got[k]})
+                    # the ASTs and the constant table are what the property speaks about; the other tables are the tie between ParserDecl and the code
+                    return ('violation' if k in ('asts', 'consts') else 'model-differs'), dict(det, table=k, expected={'source': 'ParserDecl.elab_file', k: mv[k]}, observed={k: got[k]})
             if dict(got['io']) != dict(mv['io']) and {k_: v_ for k_, v_ in got['io'] if k_ in dict(mv['io'])} != dict(mv['io']):
-                return 'violation', dict(det, table='io', expected={'source': 'ParserDecl.elab_file', 'io': mv['io']}, observed={'io': got['io']})
+                return 'model-differs', dict(det, table='io', expected={'source': 'ParserDecl.elab_file', 'io': mv['io']}, observed={'io': got['io']})
         return 'ok', None
 
     def judge(self, c, mlines, ires):
